@@ -28,7 +28,10 @@ def _wchoice(rng, weights: dict):
 
 def assign_modes(rng, nodes, profile=None):
     name, weights = profile or rng.choice(MODE_PROFILES)
-    for n in nodes:
+    for i, n in enumerate(nodes):
+        if i and rng.random() < 0.12:
+            # node derived from a generic one with build_node(...); sometimes with dependencies_default
+            n['generic'] = {'defaults': ({'k0': rng.choice([0, 5, 'c'])} if rng.random() < 0.6 else {})}
         m = _wchoice(rng, weights)
         n['mode'] = m
         if m == 'coro':
